@@ -31,5 +31,6 @@ var Registry = map[string]func(tier string, args []string) int{
 	"C02": C02,
 	"C06": C06,
 	"C19": C19,
+	"C11": func(t string, a []string) int { return C11(t) },
 	"C18": func(t string, a []string) int { return C18(t) },
 }
